@@ -528,6 +528,31 @@ def run(ctx):
                        "`%s as %s` can change the value and is neither the round-trip test `x as T as S == x` nor "
                        "guarded by it" % (rv["from"], rv["to"]), f.where(bb))
         ctx.floor("C08.N2 potentially lossy integer casts examined" + tag, n2, 2)
+        # ---- N12 (round 13, seed C08-13): "integer +, -, *, //, % are exact or an error".  The lossy form of the
+        # integer -> float conversion (`as_f64(v, true)`: 2^127 becomes 1.7e38) belongs to the operator whose result is
+        # a float by definition (true division).  An operator function that has an exact integer path - it asks
+        # `coerce` for a common representation - never also converts its operands lossily: a "friendlier" fallback for
+        # the operands `coerce` refuses turns an out-of-range integer subtraction into a rounded float instead of an
+        # error.  Families: a top-level function of value/ops.rs with its nested functions and closures.
+        n12 = 0
+        AF = OPS + "as_f64"
+        for f in sorted(prog.fns.values(), key=lambda x: x.path):
+            if f.crate != "minijinja":
+                continue
+            for c in f.calls():
+                if c.name != AF or len(c.args) < 2 or const_int(c.args[1]) != 1:
+                    continue
+                n12 += 1
+                top = (f.root or f.path)
+                parts = top.split("::")
+                fam_root = "::".join(parts[:4]) if top.startswith(OPS) else top
+                family = [g for k, g in prog.fns.items() if k == fam_root or k.startswith(fam_root + "::")]
+                exact = [g.path for g in family for k in g.calls() if k.name == OPS + "coerce"]
+                ctx.ob("C08.N12.lossy-conversion-only-in-float-valued-operators", "%s%s" % (tag, fam_root.replace(OPS, "")),
+                       not exact, "%s converts an operand to f64 lossily although the operator has an exact integer path "
+                       "(coerce is asked in %s): integers coerce refuses get a rounded float result instead of an error"
+                       % (f.path.replace(OPS, ""), [x.replace(OPS, "") for x in exact]), f.where(c.bb))
+        ctx.floor("C08.N12 lossy operand conversions" + tag, n12, 1)
 
         # ---- N3
         for n in NUMERIC_FNS:
